@@ -23,6 +23,7 @@ REQUIRED = [
     # deepening round 3 (Props/C16R3.lean): client loop guards, seed discipline
     "fact_update_loop_guards", "fact_add_arguments", "fact_seed_draw",
     "node_clientLoop_refines", "node_update_refines", "node_update_frame", "node_update_get_fails",
+    "fact_get_presentations_body", "api_get_no_gap",
     "seeds_bounded", "reset_draws_unseen_seed", "reset_noticed_by_client",
     "client_loop_never_panics", "client_refuses_malformed", "client_refuses_malformed_after_held",
     # deepening round 2026-09-28: node layer (Props/C16Node.lean)
@@ -191,8 +192,15 @@ def wire_leg(ctx):
         if o["op"] == "get":
             if o["saw_after"] != o["asked"]:
                 flag("wire:timestamp-not-passed-through", o)
+            if o.get("due", 0) > 250:
+                kinds[("get", "more-than-250-entries-due")] += 1
+            if not fail and known and not err and o.get("missing", 0) > 0:
+                # wave 9 (clause "asks for everything after its last timestamp ends up holding exactly the live set"): no gap
+                o2 = dict(o); o2["sent"] = o2["sent"][:200]; o2["got"] = o2["got"][:200]
+                flag("wire:get-answer-has-a-gap", o2)
             if not fail and known and (err or o["got"] != o["sent"]):
-                flag("wire:response-not-passed-through", o)
+                o2 = dict(o); o2["sent"] = o2["sent"][:300]; o2["got"] = o2["got"][:300]
+                flag("wire:response-not-passed-through", o2)
         else:
             if not o["same"]:
                 flag("wire:posted-presentation-altered", o)
